@@ -40,7 +40,7 @@ def gen_cases(rep):
             if plain:
                 flt, bpb, bilb = b"", 0, -1
             ents = [C02.to_ent(d) for d in es]
-            if r.random() < 0.3:
+            if r.random() < 0.3 and fmt != "xar":      # xar loops forever on a short body: C02's finding
                 # a body shorter than the declared size: the writer itself has to produce the missing bytes
                 for e in ents:
                     if len(e[17]) > 2:
